@@ -344,9 +344,28 @@ class Analyzer:
         rets = [p for p in paths if p.outcome == "return"]
         if len(rets) < 2 or len(rets) != len(paths):
             return None
+        if not any(e[0] == "write" for p in rets for e in p.effects):
+            return None  # a pure wrapper around another varint writer is inlined, not an atom of its own
         out = []
         for p in rets:
             effs = [e for e in p.effects if e[0] in ("write", "read", "xread", "codec", "seek", "tell", "stream-other", "getvalue", "wvarint")]
+            if len(effs) == 1 and effs[0][0] == "wvarint" and effs[0][1] is s and isinstance(effs[0][2], Sym) and effs[0][2].term == v.term:
+                # the general case is delegated to another varint writer with the same value: splice its paths in
+                inner = effs[0][3]
+                it = inner["value_term"]
+                V = BV.atom(v.term, 70, False)
+                mapping = {(it, i): V.bit(i) for i in range(71)}
+
+                def ren(t):
+                    if t == it:
+                        return v.term
+                    if isinstance(t, tuple):
+                        return tuple(ren(x) for x in t)
+                    return t
+                for ip in inner["paths"]:
+                    out.append({"bytes": [b.subst(mapping) if b is not None and it != v.term else b for b in ip["bytes"]],
+                                "conds": [(f_[0], f_[1]) for f_ in p.facts] + [(ren(c), pol) for c, pol in ip["conds"]]})
+                continue
             if not effs or any(e[0] != "write" or e[1] is not s for e in effs):
                 return None
             bvs = []
